@@ -105,9 +105,14 @@ func runSolver(ctx context.Context, s solver, file string, timeoutS int) (status
 	_ = cmd.Run()
 	ms = time.Since(t0).Milliseconds()
 	out = buf.String()
-	first := strings.TrimSpace(out)
-	if i := strings.IndexByte(first, '\n'); i >= 0 {
-		first = first[:i]
+	first := ""
+	for _, l := range strings.Split(out, "\n") {
+		l = strings.TrimSpace(l)
+		if l == "" || strings.HasPrefix(l, "WARNING") || strings.HasPrefix(l, "(warning") {
+			continue
+		}
+		first = l
+		break
 	}
 	switch first {
 	case "unsat", "sat":
